@@ -212,6 +212,9 @@ func (a *Agent) SetHandler(h Handler) error {
 
 		return ErrAgentClosed
 	}
+	if h == nil {
+		h = NoopHandler()
+	}
 	a.handler = h
 	a.mux.Unlock()
 
